@@ -148,7 +148,7 @@ theorem rstep_frameK (c : Cfg) (hw : WF c) (sh sh' : Sh) (k : Nat) (pc pc' : RPc
   cases pc with
   | space =>
     simp only [rstep] at h
-    cases hs : sh.inR.waitSpace c c.rblock with
+    cases hs : sh.inR.waitSpace c c.spaceNeed with
     | none => simp [hs] at h
     | some q =>
       obtain ⟨ret, r⟩ := q
